@@ -7,6 +7,11 @@
 //! value, and a batch may be CLONED after the setter and the clone sent. The oracle is unchanged: what was set last is
 //! what every frame carries.
 //!
+//! INNER statements of a batch (ops b/u/m, by position: every other op): the `Statement` / `PreparedStatement` appended to
+//! the batch carries its OWN `set_timestamp(Some(-777000 - op))`. The BATCH frame has one timestamp field, filled from
+//! `batch.get_timestamp().or_else(generator)` (connection.rs:1201): the inner value is never sent
+//! (`inner_statement_timestamps_are_ignored`); the oracle stays "the batch's explicit one, else a generated one".
+//!
 //! ONE real driver connection (`verif_hooks::connection::VerifConn`, generator set in its connection config) against
 //! one scripted node (mocknode), statements sent one after another:
 //!   `e` EXECUTE   `b` BATCH (one prepared statement)   `q` QUERY    - timestamp from the generator
@@ -166,6 +171,23 @@ pub fn run(words: &[&str], ctx: &mut Ctx) -> String {
                 b.set_timestamp(ts);
                 if sv == 1 { b.clone() } else { b }
             };
+            // inner statements with a timestamp of their own (never a value the generator hands out; below every
+            // generated one of `gen=mono`)
+            let inner_ts = ((seed as usize + oi) % 2 == 1).then_some(-777_000 - oi as i64);
+            let inner_ps = || {
+                let mut h = ps.clone();
+                if inner_ts.is_some() {
+                    h.set_timestamp(inner_ts);
+                }
+                h
+            };
+            let inner_st = || {
+                let mut st = Statement::new(INSERT);
+                if inner_ts.is_some() {
+                    st.set_timestamp(inner_ts);
+                }
+                st
+            };
             let calls_before = scripted.calls.load(Ordering::SeqCst);
             let ok = match op.to_ascii_lowercase().as_str() {
                 "v" => {
@@ -184,15 +206,15 @@ pub fn run(words: &[&str], ctx: &mut Ctx) -> String {
                     conn.execute(&h, &values, None, scylla::response::PagingState::start()).await.is_ok()
                 }
                 "b" => {
-                    let b = build_batch(vec![ps.clone().into()]);
+                    let b = build_batch(vec![inner_ps().into()]);
                     conn.batch(&b, ((key_of(oi), 0i32),)).await.is_ok()
                 }
                 "u" => {
-                    let b = build_batch(vec![Statement::new(INSERT).into()]);
+                    let b = build_batch(vec![inner_st().into()]);
                     conn.batch(&b, ((key_of(oi), 0i32),)).await.is_ok()
                 }
                 "m" => {
-                    let b = build_batch(vec![ps.clone().into(), Statement::new(INSERT).into()]);
+                    let b = build_batch(vec![inner_ps().into(), inner_st().into()]);
                     conn.batch(&b, ((key_of(oi), 0i32), (key_of(oi), 1i32))).await.is_ok()
                 }
                 "p" => {
